@@ -49,6 +49,12 @@ func (m *merkleBlock) calcHash(height, pos uint32) *chainhash.Hash {
 // node is a parent node and a list of final hashes to be included in the
 // merkle block.
 func (m *merkleBlock) traverseAndBuild(height, pos uint32) {
+	// A block without transactions has no tree to traverse (wire accepts
+	// such a block; there is no leaf whose hash could be taken).
+	if m.numTx == 0 {
+		return
+	}
+
 	// Determine whether this node is a parent of a matched node.
 	var isParent byte
 	for i := pos << height; i < (pos+1)<<height && i < m.numTx; i++ {
